@@ -2,7 +2,6 @@ use crate::streaming::batching::message_batch::{RetainedMessageBatch, RETAINED_B
 use flume::{unbounded, Receiver};
 use iggy::{error::IggyError, utils::duration::IggyDuration};
 use std::{
-    io::IoSlice,
     sync::{
         atomic::{AtomicU64, Ordering},
         Arc,
@@ -225,12 +224,11 @@ impl PersisterTask {
     ) -> Result<u64, IggyError> {
         let header = batch_to_write.header_as_bytes();
         let batch_bytes = batch_to_write.bytes;
-        let slices = [IoSlice::new(&header), IoSlice::new(&batch_bytes)];
         let bytes_written = RETAINED_BATCH_HEADER_LEN + batch_bytes.len() as u64;
 
         let mut attempts = 0;
         loop {
-            let written = match file.write_vectored(&slices).await {
+            let written = match super::write_batch_in_full(file, &header, &batch_bytes).await {
                 Ok(_) => file.flush().await,
                 Err(e) => Err(e),
             };
